@@ -43,12 +43,16 @@ const VARIANTS: &[&str] = &[
 const TRIGGERS: &[&str] = &["admin_reload", "sighup", "autoreload"];
 
 fn looper(addr: String, pool: String, id: String, stop: Arc<AtomicBool>, seed: u64) -> Vec<Obs> {
+    looper_as(addr, pool, USER.to_string(), PASS.to_string(), id, stop, seed)
+}
+
+fn looper_as(addr: String, pool: String, user: String, pass: String, id: String, stop: Arc<AtomicBool>, seed: u64) -> Vec<Obs> {
     let mut rng = Rng::new(seed);
     let mut out = vec![];
     let mut n = 0;
     while !stop.load(Ordering::SeqCst) {
         let t_c = now_ns();
-        let mut c = match Conn::connect(&addr, &StartupOpts::new(USER, &pool, PASS).app(&id)) {
+        let mut c = match Conn::connect(&addr, &StartupOpts::new(&user, &pool, &pass).app(&id)) {
             Ok(c) => c,
             Err(ConnErr::Refused { message, .. }) => {
                 n += 1;
@@ -138,6 +142,10 @@ fn scenario(seed: u64, variant: &str, trigger: &str, rep: &Report) -> Result<(),
         }
         let mut pa = PoolCfg::single("pa", USER, PASS, pa_size, vec![cell.server(pa_mock, "primary")]);
         pa.set("pool_mode", &format!("\"{}\"", pa_mode));
+        // a second user of the same pool section (its own connection pool inside the pooler)
+        let mut u2 = crate::pgcat::UserCfg::new("u2", "pw2", 3);
+        u2.key = "1".into();
+        pa.users.push(u2);
         cfg.pools.push(pa);
         if with_pb {
             cfg.pools.push(PoolCfg::single("pb", USER, PASS, 3, vec![cell.server(b1, "primary")]));
@@ -206,6 +214,11 @@ fn scenario(seed: u64, variant: &str, trigger: &str, rep: &Report) -> Result<(),
         let (a, p, s) = (addr.clone(), pool.to_string(), stop.clone());
         let sd = rng.next();
         hs.push(std::thread::spawn(move || looper(a, p, format!("l{}", i), s, sd)));
+    }
+    {
+        let (a, s) = (addr.clone(), stop.clone());
+        let sd = rng.next();
+        hs.push(std::thread::spawn(move || looper_as(a, "pa".into(), "u2".into(), "pw2".into(), "l4".into(), s, sd)));
     }
     // straddlers: a transaction in progress across the reload, one per pool
     let release = Arc::new(AtomicU64::new(0));
@@ -523,7 +536,7 @@ pub fn run(tier: &str) -> i32 {
         "C14",
         tier,
         "exploration",
-        "scenario = old/new config pair from {unchanged, general-only change, servers changed, pool added, pool removed, user changed, mode changed, shard count changed, parser/read-write-splitting flags changed, only the roles of two servers swapped, syntactically invalid, 4 semantically invalid} x trigger {admin RELOAD, SIGHUP, autoreload} with looping clients on every pool, a transaction straddling the reload per pool and a late client of the added pool; each pool generation has its own labelled mocks; oracle = label of the mock serving each tagged statement relative to the reload's end (RELOAD reply / reload.end hook event), session close events of unchanged pools, SHOW CONFIG / SHOW DATABASES before/after for invalid files; distinct = (variant, trigger) pairs",
+        "scenario = old/new config pair from {unchanged, general-only change, servers changed, pool added, pool removed, user changed, mode changed, shard count changed, parser/read-write-splitting flags changed, only the roles of two servers swapped, syntactically invalid, 4 semantically invalid} x trigger {admin RELOAD, SIGHUP, autoreload} with looping clients on every pool (two users on one of them), a transaction straddling the reload per pool and a late client of the added pool; each pool generation has its own labelled mocks; oracle = label of the mock serving each tagged statement relative to the reload's end (RELOAD reply / reload.end hook event), session close events of unchanged pools, SHOW CONFIG / SHOW DATABASES before/after for invalid files; distinct = (variant, trigger) pairs",
     );
     rep.assume("validate_config = false in generated files (a valid file naming unreachable servers is outside the property)");
     let thorough = rep.thorough();
